@@ -492,7 +492,7 @@ pub fn bal(
     let block_index = {
         let block = control_flow_graph.new_block()?;
 
-        block.assign(scalar("$ra", 32), expr_const(instruction.address + 8, 32));
+        // $ra is written before the delay slot, see `link_graph`
         block.branch(expr_const(operand.imm() as u64, 32));
 
         block.index()
@@ -504,19 +504,70 @@ pub fn bal(
     Ok(())
 }
 
-pub fn bgezal(
+/// The part of a linking branch that takes effect before its delay slot executes: the branch
+/// itself writes the link register, and `bgezal`/`bltzal` decide from the registers as they are
+/// before the delay slot (the decision is latched in `branching_condition`).
+pub fn link_graph(instruction: &capstone::Instr) -> Result<ControlFlowGraph, Error> {
+    let detail = details(instruction)?;
+
+    let mut control_flow_graph = ControlFlowGraph::new();
+
+    let block_index = {
+        let block = control_flow_graph.new_block()?;
+
+        let mut link = scalar("$ra", 32);
+
+        if let capstone::InstrIdArch::MIPS(instruction_id) = instruction.id {
+            match instruction_id {
+                capstone::mips_insn::MIPS_INS_BGEZAL => {
+                    let lhs = get_register(detail.operands[0].reg())?.expression();
+                    block.assign(
+                        scalar("branching_condition", 1),
+                        Expr::cmpeq(Expr::cmplts(lhs, expr_const(0, 32))?, expr_const(0, 1))?,
+                    );
+                }
+                capstone::mips_insn::MIPS_INS_BLTZAL => {
+                    let lhs = get_register(detail.operands[0].reg())?.expression();
+                    block.assign(
+                        scalar("branching_condition", 1),
+                        Expr::cmplts(lhs, expr_const(0, 32))?,
+                    );
+                }
+                capstone::mips_insn::MIPS_INS_JALR => {
+                    if detail.op_count == 2 {
+                        link = get_register(detail.operands[0].reg())?.scalar();
+                    }
+                }
+                _ => {}
+            }
+        }
+
+        block.assign(link, expr_const(instruction.address + 8, 32));
+
+        block.index()
+    };
+
+    control_flow_graph.set_entry(block_index)?;
+    control_flow_graph.set_exit(block_index)?;
+
+    control_flow_graph.set_address(Some(instruction.address));
+
+    Ok(control_flow_graph)
+}
+
+// bgezal and bltzal after the delay slot: branch if the latched condition holds
+fn conditional_branch_and_link(
     control_flow_graph: &mut ControlFlowGraph,
     instruction: &capstone::Instr,
 ) -> Result<(), Error> {
     let detail = details(instruction)?;
 
-    let lhs = get_register(detail.operands[0].reg())?.expression();
-    let zero = expr_const(0, 32);
     let target = expr_const(detail.operands[1].imm() as u64, 32);
+    let condition = expr_scalar("branching_condition", 1);
 
     let head_index = {
         let block = control_flow_graph.new_block()?;
-        block.assign(scalar("$ra", 32), expr_const(instruction.address + 8, 32));
+        block.nop();
         block.index()
     };
 
@@ -530,16 +581,12 @@ pub fn bgezal(
 
     let terminating_index = { control_flow_graph.new_block()?.index() };
 
-    let false_condition = Expr::cmplts(lhs, zero)?;
-
+    control_flow_graph.conditional_edge(head_index, true_index, condition.clone())?;
     control_flow_graph.conditional_edge(
         head_index,
-        true_index,
-        Expr::cmpeq(false_condition.clone(), expr_const(0, 1))?,
+        terminating_index,
+        Expr::cmpeq(condition, expr_const(0, 1))?,
     )?;
-
-    control_flow_graph.conditional_edge(head_index, terminating_index, false_condition)?;
-
     control_flow_graph.unconditional_edge(true_index, terminating_index)?;
 
     control_flow_graph.set_entry(head_index)?;
@@ -548,43 +595,18 @@ pub fn bgezal(
     Ok(())
 }
 
+pub fn bgezal(
+    control_flow_graph: &mut ControlFlowGraph,
+    instruction: &capstone::Instr,
+) -> Result<(), Error> {
+    conditional_branch_and_link(control_flow_graph, instruction)
+}
+
 pub fn bltzal(
     control_flow_graph: &mut ControlFlowGraph,
     instruction: &capstone::Instr,
 ) -> Result<(), Error> {
-    let detail = details(instruction)?;
-
-    let lhs = get_register(detail.operands[0].reg())?.expression();
-    let zero = expr_const(0, 32);
-    let target = expr_const(detail.operands[1].imm() as u64, 32);
-
-    let head_index = {
-        let block = control_flow_graph.new_block()?;
-        block.assign(scalar("$ra", 32), expr_const(instruction.address + 8, 32));
-        block.index()
-    };
-
-    let true_index = {
-        let block = control_flow_graph.new_block()?;
-
-        block.branch(target);
-
-        block.index()
-    };
-
-    let terminating_index = { control_flow_graph.new_block()?.index() };
-
-    let true_condition = Expr::cmplts(lhs, zero)?;
-    let false_condition = Expr::cmpeq(true_condition.clone(), expr_const(0, 1))?;
-
-    control_flow_graph.conditional_edge(head_index, true_index, true_condition)?;
-    control_flow_graph.conditional_edge(head_index, terminating_index, false_condition)?;
-    control_flow_graph.unconditional_edge(true_index, terminating_index)?;
-
-    control_flow_graph.set_entry(head_index)?;
-    control_flow_graph.set_exit(terminating_index)?;
-
-    Ok(())
+    conditional_branch_and_link(control_flow_graph, instruction)
 }
 
 pub fn break_(
@@ -838,7 +860,7 @@ pub fn jal(
     let block_index = {
         let block = control_flow_graph.new_block()?;
 
-        block.assign(scalar("$ra", 32), expr_const(instruction.address + 8, 32));
+        // $ra is written before the delay slot, see `link_graph`
         block.branch(expr_const(detail.operands[0].imm() as u64, 32));
 
         block.index()
@@ -856,23 +878,17 @@ pub fn jalr(
 ) -> Result<(), Error> {
     let detail = details(instruction)?;
 
-    // `jalr $rs` links in $ra, `jalr $rd, $rs` links in $rd
-    let (link, target) = if detail.op_count == 2 {
-        (
-            get_register(detail.operands[0].reg())?.scalar(),
-            get_register(detail.operands[1].reg())?.expression(),
-        )
+    // `jalr $rs` links in $ra, `jalr $rd, $rs` links in $rd; the link register is written
+    // before the delay slot, see `link_graph`
+    let target = if detail.op_count == 2 {
+        get_register(detail.operands[1].reg())?.expression()
     } else {
-        (
-            scalar("$ra", 32),
-            get_register(detail.operands[0].reg())?.expression(),
-        )
+        get_register(detail.operands[0].reg())?.expression()
     };
 
     let block_index = {
         let block = control_flow_graph.new_block()?;
 
-        block.assign(link, expr_const(instruction.address + 8, 32));
         block.branch(target);
 
         block.index()
